@@ -867,7 +867,7 @@ Theorem shard_run_spec root stream r t :
   (forall er, r = RErr er -> er <> EFuel /\ Forall (fun q => is_node (pcid q)) (ok_pins t)) /\
   (forall c, r = ROk c -> c = CData root /\ exists xs, FinalOk root stream xs t).
 Proof.
-  intros Hin Hsw H. unfold shard_run in H.
+  intros Hin Hsw H. unfold shard_run, shard_adds in H.
   destruct (add_all (shard_add e) stream sst0) as [[er|] st1] eqn:Ha.
   - destruct (add_all_shard_spec _ _ _ _ _ _ Inv0 Hin Hsw Ha) as (W & Hf & _). inversion H; subst.
     split; [eapply wf_mono; [apply P_add_Pall|apply W]|]. split.
@@ -1006,7 +1006,7 @@ Theorem single_run_spec root stream r t :
   (forall er, r = RErr er -> er <> EFuel /\ ok_pins t = []) /\
   (forall c, r = ROk c -> c = CData root /\ exists al, SingleOk root stream al t).
 Proof.
-  intros Hsw H. unfold single_run in H.
+  intros Hsw H. unfold single_run, single_adds in H.
   assert (I0 : SInv [] (mksingle None [] io0)).
   { constructor; try reflexivity; [constructor|unfold WfS; simpl; tauto|simpl; tauto]. }
   destruct (add_all (fun b => single_add e (bcid b)) stream (mksingle None [] io0)) as [[er|] st1] eqn:Ha;
